@@ -77,6 +77,29 @@ def decModel (bufsize : Nat) (lastEOF : Bool) (maxNext : Nat) (chunks : List Byt
   | .ok outs => ";".intercalate outs
   | .error cls => cls
 
+/-- decf: the same with a visitor failing from its `failAt`-th event on (counted over the whole stream) -/
+def decFaultModel (failAt : Nat) (bufsize : Nat) (lastEOF : Bool) (maxNext : Nat) (chunks : List Bytes) : String :=
+  let d0 : Dec.Dec :=
+    if bufsize == 0 then Dec.newBytesDecoder chunks.flatten else Dec.newDecoder chunks lastEOF bufsize
+  -- `.error` = the whole op panicked / hung (the harness' Guard)
+  let d0 := { d0 with p := Parse.init (some failAt) }
+  let rec go (d : Dec.Dec) (n : Nat) (acc : List String) : Except String (List String) :=
+    match n with
+    | 0 => .ok acc.reverse
+    | n + 1 =>
+      let before := (Parse.events d.p).length
+      let (d', r) := Dec.next (Dec.nextFuel d) d
+      match r with
+      | .err .panic => .error "panic"
+      | .err .outOfFuel => .error "hang"
+      | _ =>
+        let rs := match r with | .ok => "ok" | .eof => "eof" | .err _ => "err"
+        let acc := s!"{evsToString ((Parse.events d'.p).drop before)}={rs}" :: acc
+        if r == .ok then go d' n acc else .ok acc.reverse
+  match go d0 maxNext [] with
+  | .ok outs => ";".intercalate outs
+  | .error cls => cls
+
 end SF.Ops.Ubjson
 
 namespace SF.Ops.Ubjson
